@@ -480,7 +480,7 @@ theorem event_accepts_encoded (flag req : Nat) (evs : List Event) (last : Option
 
 /-- **gen_tables_agree**: what `tools/gen_ack_tables.py` re-reads from the current source —
 prefix magics, event command id, the namespace expression `(code >> 13) & 0b11` with its
-arms, the fatal-bit shift, every arm of the two status-code `match`es and of the `ScdKind`
+arms, every arm of the two status-code `match`es and of the `ScdKind`
 `match` — is what the model implements and what the reference tables prescribe: every
 generated arm is an entry of the reference table with the same meaning, and the tables
 have the same number of pairwise distinct codes.  (With `status_split` this makes the
@@ -493,7 +493,7 @@ theorem gen_tables_agree :
      Ack.EVENT_COMMAND_ID = Gen.AckTables.EVENT_COMMAND_ID ∧
      Gen.AckTables.EVENT_COMMAND_ID = Spec.GenCPAck.EVENT_COMMAND_ID) ∧
     (Gen.AckTables.NAMESPACE_SHIFT = 13 ∧ NAMESPACE_MASK = Gen.AckTables.NAMESPACE_MASK ∧
-     Gen.AckTables.NAMESPACE_MASK = 0b11 ∧ Gen.AckTables.FATAL_SHIFT = 15 ∧
+     Gen.AckTables.NAMESPACE_MASK = 0b11 ∧
      Gen.AckTables.namespaceArms = [(0, "genCp"), (1, "usb"), (2, "deviceSpecific")]) ∧
     (∀ e ∈ Gen.AckTables.gencpStatus,
       (statusClass e.1).map ofClass = some (.genCp e.2) ∧
